@@ -86,6 +86,16 @@ pub fn observe_history<S: AsRef<[u8]>>(docs: &[S]) -> String {
             o.push_str(&render(&e, Preset::SerdeXmlRs, false));
             o.push('\u{1}');
             o.push_str(&e.to_serde_struct(&Options::quick_xml_de().derive("Debug, Clone, Debug, PartialEq, Clone")));
+            // public accessors used after the last rendering, right before the tree is dropped:
+            // whatever they leave behind must not influence the next call
+            fn touch(e: &Element<String>) -> usize {
+                let mut n = e.formatted_name().len();
+                for c in e.children() {
+                    n += touch(c.inner_t());
+                }
+                n
+            }
+            let _ = touch(&e);
             o
         }) {
             Ok(o) => o,
@@ -109,12 +119,41 @@ pub fn noise() {
         "<r><Foo/><foo/><p><Foo/></p></r>".to_string(),
         "".to_string(),
     ];
-    for _ in 0..6 {
+    let odd = Options {
+        text_identifier: "$value".to_string(),
+        attribute_prefix: "x".to_string(),
+        derive: "Zeta, Alpha".to_string(),
+        sort: SortBy::XmlName,
+    };
+    for round in 0..6 {
         for x in &inputs {
             if let Ok(Ok(e)) = guarded(|| parse(x.as_bytes())) {
+                // public accessors used without rendering, renderings with unusual options
+                let _ = guarded(|| {
+                    let mut names = vec![e.formatted_name()];
+                    for c in e.children() {
+                        names.push(c.inner_t().formatted_name());
+                    }
+                    names
+                });
+                if round % 2 == 0 {
+                    let _ = guarded(|| e.to_serde_struct(&odd));
+                }
                 let _ = guarded(|| render_all(&e));
+                // ... and once more after the last rendering, right before the tree is dropped
+                let _ = guarded(|| {
+                    let mut names = vec![e.formatted_name()];
+                    for c in e.children() {
+                        names.push(c.inner_t().formatted_name());
+                    }
+                    names
+                });
             }
         }
+    }
+    let text_first = "<q>text</q>";
+    if let Ok(Ok(e)) = guarded(|| parse(text_first.as_bytes())) {
+        let _ = guarded(|| e.to_serde_struct(&odd));
     }
 }
 
@@ -122,6 +161,11 @@ pub fn noise() {
 /// `in_thread` runs on the calling thread, then one run in each of `fresh_threads` new threads
 /// (every new thread gets fresh SipHash keys). Returns the distinct observations
 pub fn repeat_history(docs: &[String], in_thread: usize, fresh_threads: usize) -> Vec<String> {
+    repeat_history_opt(docs, in_thread, fresh_threads)
+}
+
+/// `repeat_history`; the process-level variant that starts with `noise()` is selected in main
+pub fn repeat_history_opt(docs: &[String], in_thread: usize, fresh_threads: usize) -> Vec<String> {
     let mut outs: Vec<String> = Vec::new();
     let mut push = |o: String| {
         if !outs.contains(&o) {
@@ -204,7 +248,7 @@ pub fn render_all(e: &Element<String>) -> String {
 
 /// a `BufRead` whose behaviour at every `fill_buf` is decided by a chooser:
 /// 0 = everything that is left, 1..=4 = the next 1 / 2 / 3 / 7 bytes, 5 = `Interrupted` (then data),
-/// 6 = a hard I/O error (only offered when `hard_errors`)
+/// 6, 7, 8 = a hard I/O error of kind Other / UnexpectedEof / BrokenPipe (only offered when `hard_errors`)
 pub struct ChoiceReader<'a> {
     pub data: &'a [u8],
     pub pos: usize,
@@ -250,7 +294,7 @@ impl<'a> std::io::BufRead for ChoiceReader<'a> {
             let arity = if self.just_interrupted {
                 5
             } else if self.hard_errors {
-                7
+                9
             } else {
                 6
             };
@@ -266,9 +310,14 @@ impl<'a> std::io::BufRead for ChoiceReader<'a> {
                     self.just_interrupted = true;
                     return Err(std::io::Error::new(std::io::ErrorKind::Interrupted, "interrupted"));
                 }
-                _ => {
+                k => {
                     self.failed = true;
-                    return Err(std::io::Error::new(std::io::ErrorKind::Other, "injected I/O error"));
+                    let kind = match k {
+                        6 => std::io::ErrorKind::Other,
+                        7 => std::io::ErrorKind::UnexpectedEof,
+                        _ => std::io::ErrorKind::BrokenPipe,
+                    };
+                    return Err(std::io::Error::new(kind, "injected I/O error"));
                 }
             }
         }
